@@ -37,18 +37,32 @@ pub open spec fn sel_seq<V>(gp: spec_fn(int) -> bool, gm: spec_fn(int) -> (V, Pu
     decreases k
 { if k <= 0 { Seq::empty() } else if gp(k - 1) { sel_seq(gp, gm, k - 1).push(gm(k - 1)) } else { sel_seq(gp, gm, k - 1) } }
 
-pub proof fn lemma_sel_sum_sw(gp: spec_fn(int) -> bool, gm: spec_fn(int) -> u64, bits: Seq<bool>, vec: Seq<ValidatorInfo>, k: int)
-    requires 0 <= k <= vec.len(), bits.len() == vec.len(),
-             forall|i: int| 0 <= i < vec.len() ==> gp(i) == bits[i] && gm(i) == vec[i].weight,
+pub open spec fn means_sum(gp: spec_fn(int) -> bool, gm: spec_fn(int) -> u64, bits: Seq<bool>, vec: Seq<ValidatorInfo>) -> bool {
+    forall|i: int| 0 <= i < vec.len() ==> gp(i) == #[trigger] bits[i] && gm(i) == vec[i].weight
+}
+pub proof fn lemma_sel_sum_sw_rec(gp: spec_fn(int) -> bool, gm: spec_fn(int) -> u64, bits: Seq<bool>, vec: Seq<ValidatorInfo>, k: int)
+    requires 0 <= k <= vec.len(), bits.len() == vec.len(), means_sum(gp, gm, bits, vec),
     ensures sel_sum(gp, gm, k) == sw(bits, vec, k),
     decreases k
-{ if k > 0 { lemma_sel_sum_sw(gp, gm, bits, vec, k - 1); } }
-pub proof fn lemma_sel_seq_pairs<V>(gp: spec_fn(int) -> bool, gm: spec_fn(int) -> (V, PublicKey), msg: V, bits: Seq<bool>, vec: Seq<ValidatorInfo>, k: int)
+{ if k > 0 { lemma_sel_sum_sw_rec(gp, gm, bits, vec, k - 1); assert(gp(k - 1) == bits[k - 1] && gm(k - 1) == vec[k - 1].weight); } }
+pub proof fn lemma_sel_sum_sw(gp: spec_fn(int) -> bool, gm: spec_fn(int) -> u64, bits: Seq<bool>, vec: Seq<ValidatorInfo>, k: int)
     requires 0 <= k <= vec.len(), bits.len() == vec.len(),
-             forall|i: int| 0 <= i < vec.len() ==> gp(i) == bits[i] && gm(i) == (msg, vec[i].key),
+             forall|i: int| 0 <= i < vec.len() ==> gp(i) == #[trigger] bits[i] && gm(i) == vec[i].weight,
+    ensures sel_sum(gp, gm, k) == sw(bits, vec, k),
+{ lemma_sel_sum_sw_rec(gp, gm, bits, vec, k); }
+pub open spec fn means_pairs<V>(gp: spec_fn(int) -> bool, gm: spec_fn(int) -> (V, PublicKey), msg: V, bits: Seq<bool>, vec: Seq<ValidatorInfo>) -> bool {
+    forall|i: int| 0 <= i < vec.len() ==> gp(i) == #[trigger] bits[i] && gm(i) == (msg, vec[i].key)
+}
+pub proof fn lemma_sel_seq_pairs_rec<V>(gp: spec_fn(int) -> bool, gm: spec_fn(int) -> (V, PublicKey), msg: V, bits: Seq<bool>, vec: Seq<ValidatorInfo>, k: int)
+    requires 0 <= k <= vec.len(), bits.len() == vec.len(), means_pairs(gp, gm, msg, bits, vec),
     ensures sel_seq(gp, gm, k) == sel_pairs(msg, bits, vec, k),
     decreases k
-{ if k > 0 { lemma_sel_seq_pairs(gp, gm, msg, bits, vec, k - 1); } }
+{ if k > 0 { lemma_sel_seq_pairs_rec(gp, gm, msg, bits, vec, k - 1); assert(gp(k - 1) == bits[k - 1] && gm(k - 1) == (msg, vec[k - 1].key)); } }
+pub proof fn lemma_sel_seq_pairs<V>(gp: spec_fn(int) -> bool, gm: spec_fn(int) -> (V, PublicKey), msg: V, bits: Seq<bool>, vec: Seq<ValidatorInfo>, k: int)
+    requires 0 <= k <= vec.len(), bits.len() == vec.len(),
+             forall|i: int| 0 <= i < vec.len() ==> gp(i) == #[trigger] bits[i] && gm(i) == (msg, vec[i].key),
+    ensures sel_seq(gp, gm, k) == sel_pairs(msg, bits, vec, k),
+{ lemma_sel_seq_pairs_rec(gp, gm, msg, bits, vec, k); }
 
 // ---- R-chain templates (A1: documented semantics of Iterator::{enumerate, filter, map, sum}) ----
 // schedule.iter().enumerate().filter(P).map(M).sum::<u64>()      (Schedule::iter() is `self.vec.iter()`)
